@@ -65,6 +65,31 @@ CLAIMED = {
                  'execution starts with on_node_start in the section that marks it processed; one on_node_complete per raising '
                  'attempt, error=None iff a value/default; the value is stored strictly after the successful on_node_complete '
                  'returned, even when callbacks suspend (C14_*).', '§6 C14'),
+    'C15': ('Lean 4 proof about the worklist builder model (closure of the traversal, per-mark contributions) + differential correspondence',
+            'Proof: Builder.build — the model of build_dag with its real LIFO worklist and per-mark graph construction — visits exactly '
+            'the declared nodes the output can reach (completeness and soundness of the worklist, any size/shape), contains for every '
+            'mark of every such node its declared dependency edges (no parameter dropped), links mark-less nodes to the input, and its '
+            'node map resolves every id to a declaration with that id (C15_*). Attribute merging of parallel parameters is a listed '
+            'finding with a witness theorem. Tie: every run builds generated declaration sets (all mark kinds, reused marks, unnamed '
+            'switches, build_node generics, 4 modes) with the real build_dag and compares nodes, edges, all attributes, node map and '
+            'pool flags with the model.',
+            'Trusted: Lean kernel (+propext, Classical.choice, Quot.sound); the hand-written model of builder.py; the sampled differential; '
+            'get_node_id / inspect behave as generated.', '§6 C15'),
+    'C16': ('Lean 4 proof about the builder model (every reachable defect is fatal and specific; defect-free sets build) + differential',
+            'Proof: for every well-formed declaration set, a defect of the per-node validators at any node the output can reach makes '
+            'build fail (C16_defective_declaration_rejected) with the error of a reachable defective node or a recurrent '
+            'post-validation error (C16_error_is_specific); a recurrent destination without the protocol / a start node without '
+            'additional_data are rejected; defect-free sets build (C16_valid_declarations_build). Tie: every valid generated set and '
+            'single-defect mutations (8 kinds, any reachable placement) through the real build_dag, error class compared.',
+            'Trusted: as C15; how a Python object comes to lack a base / process / annotation is generated, not modelled.', '§6 C16'),
+    'C20': ('Lean 4 proof about the viewer projection model + differential correspondence on every buildable generated pipeline',
+            'Proof (full strength on the model): Viewer.config yields exactly one entry per DAG node in order, virtual + prefix-typed '
+            'for synthetic nodes and carrying the declared data for real ones, exactly one edge entry per dependency with the same '
+            'endpoints and unique ids, and a type table covering every occurring type; it is a function (cannot modify its input) '
+            '(C20_*). Tie: GraphConfigImpl.generate(...).as_dict() → json vs the model on every buildable generated pipeline incl. '
+            'custom / missing node types and generics; DAG snapshot before/after.',
+            'Trusted: Lean kernel (+propext, Classical.choice, Quot.sound); the hand-written model of visualization/dag.py; inspect-derived '
+            'strings are opaque inputs; importlib_resources / distutils are stubbed (only copy_resources uses them).', '§6 C20'),
     'C18': (
         'Lean 4 refinement proof (model refines write-once map) + differential correspondence on op sequences',
         'Proof: MLPE.Store (model of FileSystemArtifactStore after the fix commit) refines a write-once finite map keyed by '
